@@ -86,7 +86,7 @@ def run(prop, tier):
     if not r.ok:
         raise vlib.Undecided('KmacPad: %s %s' % (r.violated, r.error))
     ck.add_states(r, 'KMAC bytepad lengths, key length 0..1200 and windows around 8192 and 2097152 (longer length headers)')
-    boundary = tlc_cases(r.out)[0]['boundary']
+    boundary = sorted(set(tlc_cases(r.out)[0]['boundary']) | set(tlc_cases(r.out)[0]['steps']))     # block boundaries and header steps (32, 8192, 2097152)
     neg = vlib.tlc(SPEC, 'KmacPad', vlib.cfg({'MaxKey': 400, 'Fixed': False}, invariants=['Holds']), name='kpadneg')
     if 'Holds' not in neg.violated:
         raise vlib.Undecided('negative control D7 not detected')
